@@ -77,6 +77,7 @@ const (
 	FaultGarbageCert = "garbage-certificate"
 	FaultZeroKey     = "zero-key"
 	FaultMismatch    = "certificate-of-another-key"
+	FaultPartial     = "error-after-partial-fill" // SetUserinfo*: some setters were already called when the error is returned
 	FaultEmptyID     = "ok-with-empty-id" // CreateAuthRequest only
 	FaultCtxDeadline = "error-context-deadline"
 	FaultCtxCanceled = "error-context-canceled"
@@ -107,6 +108,8 @@ type Store struct {
 	ErrText string
 	// LoginURLBase builds the login UI URL handed to NewServiceProvider.
 	LoginURLBase string
+	// Lookup selects how GetEntityByID matches: "" exact | "case-insensitive" | "trailing-slash" (alias-tolerant storages)
+	Lookup string
 }
 
 func NewStore() *Store {
@@ -168,7 +171,9 @@ func (s *Store) Inject(r AuthReq) *AuthReq {
 	defer s.mu.Unlock()
 	if r.ID == "" {
 		s.nextID++
-		r.ID = fmt.Sprintf("r%d", s.nextID)
+		// UUID-shaped, deterministic (creation rank): real storages hand out UUIDs, and code that "normalises" ids only
+		// shows its effect on ids of that shape
+		r.ID = fmt.Sprintf("0a1b2c3d-0000-4000-8000-%012x", s.nextID)
 	}
 	rr := r
 	rr.store = s
@@ -297,6 +302,8 @@ func (s *Store) faultErr(kind string) error {
 	return s.injected()
 }
 
+func isErrFaultX(kind string) bool { return kind == FaultPartial }
+
 func isErrFault(kind string) bool {
 	return kind == FaultError || kind == FaultCtxDeadline || kind == FaultCtxCanceled
 }
@@ -353,6 +360,20 @@ func (s *Store) GetEntityByID(_ context.Context, entityID string) (*serviceprovi
 	}
 	s.mu.Lock()
 	sp, ok := s.sps[entityID]
+	if !ok && s.Lookup != "" {
+		for id, cand := range s.sps {
+			switch s.Lookup {
+			case "case-insensitive":
+				ok = strings.EqualFold(id, entityID)
+			case "trailing-slash":
+				ok = strings.TrimSuffix(id, "/") == strings.TrimSuffix(strings.TrimSpace(entityID), "/")
+			}
+			if ok {
+				sp = cand
+				break
+			}
+		}
+	}
 	s.mu.Unlock()
 	if !ok {
 		err := fmt.Errorf("service provider not found")
@@ -448,6 +469,9 @@ func (s *Store) fill(u *User, set models.AttributeSetter) {
 
 func (s *Store) SetUserinfoWithUserID(_ context.Context, appID string, set models.AttributeSetter, userID string, attrs []int) error {
 	idx, f := s.enter("SetUserinfoWithUserID", appID, userID)
+	if f == FaultPartial {
+		s.partial(userID, "", set)
+	}
 	if f != "" {
 		err := s.faultErr(f)
 		s.result(idx, "", err)
@@ -468,6 +492,9 @@ func (s *Store) SetUserinfoWithUserID(_ context.Context, appID string, set model
 
 func (s *Store) SetUserinfoWithLoginName(_ context.Context, set models.AttributeSetter, loginName string, attrs []int) error {
 	idx, f := s.enter("SetUserinfoWithLoginName", loginName)
+	if f == FaultPartial {
+		s.partial("", loginName, set)
+	}
 	if f != "" {
 		err := s.faultErr(f)
 		s.result(idx, "", err)
@@ -484,6 +511,21 @@ func (s *Store) SetUserinfoWithLoginName(_ context.Context, set models.Attribute
 	s.fill(u, set)
 	s.result(idx, u.ID, nil)
 	return nil
+}
+
+// partial calls the first setters for the user (if known) before the injected error is returned.
+func (s *Store) partial(userID, login string, set models.AttributeSetter) {
+	s.mu.Lock()
+	u := s.users[userID]
+	if u == nil {
+		u = s.logins[login]
+	}
+	s.mu.Unlock()
+	if u != nil {
+		set.SetEmail(u.Email)
+		set.SetUsername(u.Username)
+		set.SetFullName(u.FullName)
+	}
 }
 
 func (s *Store) Health(context.Context) error {
